@@ -279,6 +279,22 @@ class Art:
                 "sig": self.sig(), "notes": self.notes}
 
 
+def _through_the_config_writer(cfg: dict, nones: dict, title: str, schemas: list) -> dict:
+    import copy
+
+    import yaml
+    from spsdk.utils.schema_validator import CommentedConfig
+
+    full = copy.deepcopy(cfg)
+    for k, v in nones.items():
+        if isinstance(v, dict):
+            full.setdefault(k, {}).update(v)
+        else:
+            full[k] = v
+    text = CommentedConfig(title, schemas).get_config(full)
+    return yaml.safe_load(text)
+
+
 class Sb2Art(Art):
     CTR_NAMES = ("dek", "nonce")
 
@@ -326,6 +342,12 @@ class Sb2Art(Art):
             cfg = {"family": "lpc55s6x", "containerOutputFile": os.path.join(d, "out.sb2"),
                    "containerKeyBlobEncryptionKey": self.kek.hex(), "certBlock": os.path.join(d, "cb.yaml"),
                    "signPrivateKey": pki.path(cert_name), "options": options, "sections": sections}
+            if self.rng.random() < 0.35:
+                # a configuration that lists the secrets it does not supply as None and is stored through SPSDK's own writer
+                # before the build (what a front end does with its defaults): not supplied stays not supplied
+                cfg = _through_the_config_writer(cfg, {"options": {n: None for n in self.invented}}, "SB2.1",
+                                                 BootImageV21.get_validation_schemas("lpc55s6x"))
+                self.notes.append("stored-through-the-configuration-writer")
             check_config(cfg, BootImageV21.get_validation_schemas("lpc55s6x"), search_paths=[d])
             self.obj = BootImageV21.load_from_config(cfg, rkth_out_path=os.path.join(d, "rkth.bin"), search_paths=[d])
             return
